@@ -314,7 +314,10 @@ def apply_op(roots, op, allow_move=True, direct_inplace=False, prebuilt=None, bu
       elif name == 'popitem':
         r = n.popitem()
       elif name == 'update':
-        if m % 3 == 0:
+        if m == 5:
+          # a mapping and keyword arguments in one call
+          n.update(as_dict(val), **{'zk': i, str(key) if isinstance(key, str) and key.isidentifier() else 'zk2': m})
+        elif m % 3 == 0:
           n.update(as_dict(val))
         elif m % 3 == 1:
           n.update(list(as_dict(val).items()))
